@@ -1362,7 +1362,12 @@ pub fn run_t1(profile: &T1Profile, tape: Tape, opts: &T1Opts) -> RunOut {
 
     // C16 (iv): a capacity waiter that never finishes in a cooperative run
     if let Some(v) = violations.iter().find(|v| v.prop == "C06" && v.oracle == "parked-at-quiescence" && v.disc.split('+').any(|k| k.ends_with("poll_capacity"))).cloned() {
-        violations.push(Violation { prop: "C16", oracle: "capacity-waiter-never-woken", disc: String::new(), msg: v.msg.clone(), step: v.step });
+        // (the cause prefix of the C06 signature, if any, discriminates listed findings)
+        let cause = match v.disc.rfind(':') {
+            Some(i) => v.disc[..=i].to_string(),
+            None => String::new(),
+        };
+        violations.push(Violation { prop: "C16", oracle: "capacity-waiter-never-woken", disc: cause, msg: v.msg.clone(), step: v.step });
     }
     // C17: resetting / dropping a stream must not disturb other streams
     let had_reset = hist.with(|h| !h.resets.is_empty());
@@ -1665,7 +1670,7 @@ fn check_peer_resets(hist: &Hist, mon: &Monitor, strict: bool, out: &mut Vec<Vio
             continue;
         }
         let w = mon.ep[er.side as usize].streams.get(&er.sid);
-        let ok = w.map(|w| w.rst_in && w.rst_in_code == er.facts.reason).unwrap_or(false);
+        let ok = w.map(|w| w.rst_in && er.facts.reason.map(|r| w.rst_in_codes.contains(&r)).unwrap_or(false)).unwrap_or(false);
         if !ok && mon.ep[er.side as usize].events.is_empty() {
             out.push(Violation::new("C17", "remote-reset-reported-differs-from-wire", er.handle, format!("{} {} on stream {} reported {:?} but the RST_STREAM it processed from the peer is {:?}", who(er.side), er.handle, er.sid, er.facts, w.map(|w| (w.rst_in, w.rst_in_code))), step));
         }
@@ -1673,7 +1678,7 @@ fn check_peer_resets(hist: &Hist, mon: &Monitor, strict: bool, out: &mut Vec<Vio
     for (side, sid, r, _) in &polls {
         if let Ok(code) = r {
             let w = mon.ep[*side as usize].streams.get(sid);
-            let by_peer = w.map(|w| w.rst_in && w.rst_in_code == Some(*code)).unwrap_or(false);
+            let by_peer = w.map(|w| w.rst_in && w.rst_in_codes.contains(code)).unwrap_or(false);
             let by_self = w.map(|w| w.rst_out > 0 && w.rst_out_code == Some(*code)).unwrap_or(false) || hist.with(|h| h.resets.iter().any(|x| x.side == *side && x.sid == *sid));
             // (a stream that ended cleanly resolves a cooperative wait with NO_ERROR)
             // (a connection-level error surfaces through poll_reset with the GOAWAY's code)
@@ -1702,7 +1707,7 @@ fn check_peer_resets(hist: &Hist, mon: &Monitor, strict: bool, out: &mut Vec<Vio
             None => continue,
         };
         if t < er.step && w.rst_out == 0 && !w.end_in_before_rst {
-            let same = er.facts.is_reset && er.facts.is_remote && er.facts.reason == w.rst_in_code;
+            let same = er.facts.is_reset && er.facts.is_remote && er.facts.reason.map(|r| w.rst_in_codes.contains(&r)).unwrap_or(false);
             if !same {
                 out.push(Violation::new("C17", "peer-reset-not-surfaced", er.handle, format!("{} processed RST_STREAM({:?}) from the peer on stream {} at step {}, but {} at step {} reported {:?}", who(er.side), w.rst_in_code, er.sid, t, er.handle, er.step, er.facts), step));
             }
